@@ -26,9 +26,13 @@ import (
 type ErrKind int
 
 const (
-	NotFound ErrKind = iota + 1 // implements NotFound() bool
-	IOError                     // opaque
+	NotFound      ErrKind = iota + 1 // implements NotFound() bool
+	IOError                          // opaque
+	UnexpectedEOF                    // io.ErrUnexpectedEOF, unwrapped (a short read of the block)
 )
+
+// AllKinds lists the load-error kinds the fault checks inject.
+var AllKinds = []ErrKind{NotFound, IOError, UnexpectedEOF}
 
 type notFoundErr struct{ c cid.Cid }
 
@@ -52,7 +56,7 @@ func IsInjected(err error) bool {
 		return false
 	}
 	var nf notFoundErr
-	if errors.Is(err, ErrIO) || errors.As(err, &nf) || errors.Is(err, ErrWrite) {
+	if errors.Is(err, ErrIO) || errors.As(err, &nf) || errors.Is(err, ErrWrite) || errors.Is(err, io.ErrUnexpectedEOF) {
 		return true
 	}
 	s := err.Error()
@@ -60,8 +64,11 @@ func IsInjected(err error) bool {
 }
 
 func MakeErr(k ErrKind, c cid.Cid) error {
-	if k == NotFound {
+	switch k {
+	case NotFound:
 		return notFoundErr{c}
+	case UnexpectedEOF:
+		return io.ErrUnexpectedEOF
 	}
 	return fmt.Errorf("%w (%s)", ErrIO, c)
 }
